@@ -191,6 +191,33 @@ fn oracle_inner(c: &Case, ctx: &mut Ctx, sim: &mut Sim) -> CaseResult {
 	Ok(())
 }
 
+/// Crash-point enumeration: for each of `flows` generated short flows, every position between two
+/// operations x every node x {durable, landed} monitors x {newest, previous} manager snapshot.
+fn enumerated_cases(seed: u64, flows: usize) -> Vec<Case> {
+	let fine = OpWeights { send: 24, claim: 14, fail: 4, deliver: 50, events: 16, forwards: 16, async_toggle: 8, complete: 12, reconnect: 2, ..OpWeights::zero() };
+	let st = (
+		world_spec(vec![Topology::Pair, Topology::Line3, Topology::Line3]),
+		proptest::collection::vec(op_strategy(fine), 12..26),
+		proptest::collection::vec(proptest::bool::weighted(0.6), 7),
+	);
+	let mut out = vec![];
+	for f in 0..flows {
+		let (spec, flow, snap_bits) = sample_once(&st, seed.wrapping_mul(1_000_003).wrapping_add(f as u64));
+		let n = spec.topo.nodes();
+		for pos in 0..=flow.len() {
+			for node in 0..n {
+				for (snap, landed) in [(0u16, false), (0, true), (1, false)] {
+					// `pick` maps (x * len) >> 16: choose x so that it lands exactly on pos / node
+					let after = (((pos as u32) << 16) / (flow.len() as u32 + 1) + 1).min(65535) as u16;
+					let nodesel = ((((node as u32) << 16) / n as u32) + 1).min(65535) as u16;
+					out.push(Case { spec: spec.clone(), flow: flow.clone(), snap_bits: snap_bits.clone(), crashes: vec![Crash { after, node: nodesel, snap: if snap == 0 { 0 } else { 40000 }, landed }], recovery: vec![] });
+				}
+			}
+		}
+	}
+	out
+}
+
 fn main() {
 	install_recording_signer();
 	let mut c = Check::new("C10", "fault_enumeration");
@@ -206,6 +233,15 @@ fn main() {
 			max_shrink: 300,
 		},
 		|| strat(60),
+		oracle,
+	);
+	let flows = if c.tier() == Tier::Thorough { 300 } else { 5 };
+	let cases = enumerated_cases(c.args.seed, flows);
+	c.enumerate(
+		"restart-enumerated",
+		"for each of a few generated short flows (12..25 fine-grained operations over pair / line worlds with async persistence): EVERY crash position between two operations x every node x {durable monitors, landed async writes, older manager snapshot}; same oracles as restart-sampled. Exhaustive over the crash points of the explored flows (not over flows)",
+		cases,
+		false,
 		oracle,
 	);
 	c.finish();
